@@ -160,7 +160,8 @@ def run_protocol_only(v, fam, n, name, pool_extra=("1", "2", "x", "--", "--zz", 
     dump = os.path.join(WORK, f"{name}-{v.tier}-obs.ndjson")
     summ = run_replay(hbin, dpath, cpath, os.path.join(WORK, f"{name}-{v.tier}-mm.ndjson"), hooks=hooks, dump=dump)
     for r in read_ndjson(dump):
-        if r["got"]["class"] == "panic":
+        # (a definition that breaks a documented construction rule panics with "bpaf usage BUG": not this property's business)
+        if r["got"]["class"] == "panic" and "bpaf usage BUG" not in r["got"].get("text", ""):
             v.report({"rule": "panic", "shape": "beyond_acceptors"}, {"def": r["def"], "argv_bytes": r["argv_bytes"], "got": r["got"]})
     ev, runs = validate_ledger(v, hooks, cpath)
     os.remove(hooks)
